@@ -6,6 +6,7 @@
 //! Output lines:  `C <case> <opidx> <op>` / `I <impl result>` / `M <model result>`
 //!                `E <case> <end-of-case info>` / `T <case> <opidx>` (watchdog fired)
 
+mod conc;
 mod enc;
 mod level;
 mod out;
@@ -49,6 +50,7 @@ fn main() {
     match args[1].as_str() {
         "ma" => cmd_ma(),
         "level" => level::run(&args[2]),
+        "conc" => conc::run(&args[2]),
         other => {
             eprintln!("unknown subcommand {other}");
             std::process::exit(2);
